@@ -34,18 +34,28 @@ import (
 // cfg: pass (passphrase class), fmt (0 current format, 1 legacy salt-less)
 // ops: trunc(A=len) | flip(A=pos,B=xor mask) | set(A=pos,B=value) | wrongpass(A=class) | export
 
+const c19Classes = 8
+
 var c19Key = sim.KeyFromSeed("c19-proposer")
 
 func c19Pass(class int64) []byte {
-	switch class % 4 {
+	switch class % c19Classes {
 	case 0:
 		return []byte{}
 	case 1:
 		return []byte("p")
 	case 2:
 		return bytes.Repeat([]byte("long-passphrase-"), 256) // 4 KB
-	default:
+	case 3:
 		return []byte{0xff, 0xfe, 0x00, 0x80, 'x', 0xc3, 0x28}
+	case 4:
+		return []byte("secret\n") // as read from a file or a pipe
+	case 5:
+		return []byte("secret\r\n")
+	case 6:
+		return []byte(" secret\t ")
+	default:
+		return []byte("Secret\x00")
 	}
 }
 
@@ -69,7 +79,7 @@ var (
 
 // c19Image returns the pristine key file for a passphrase class and format.
 func c19Image(passClass, format int64) ([]byte, error) {
-	k := fmt.Sprintf("%d/%d", passClass%4, format%2)
+	k := fmt.Sprintf("%d/%d", passClass%c19Classes, format%2)
 	c19Mu.Lock()
 	defer c19Mu.Unlock()
 	if img, ok := c19Cache[k]; ok {
@@ -153,6 +163,32 @@ func c19Run(t *testing.T, s *sim.Scn) *sim.Outcome {
 			o.Count("byte-replacements", 1)
 		case "wrongpass":
 			w := c19Pass(op.A)
+			// B > 0: a near miss derived from the right passphrase
+			switch op.B % 10 {
+			case 1:
+				w = append(append([]byte(nil), pass...), '\n')
+			case 2:
+				w = append(append([]byte(nil), pass...), '\r', '\n')
+			case 3:
+				w = bytes.TrimRight(pass, "\r\n")
+			case 4:
+				w = bytes.TrimSpace(pass)
+			case 5:
+				w = append(append([]byte(nil), pass...), ' ')
+			case 6:
+				w = append(append([]byte(nil), pass...), 0)
+			case 7:
+				if len(pass) > 0 {
+					w = pass[:len(pass)-1]
+				}
+			case 8:
+				w = bytes.ToUpper(pass)
+			case 9:
+				w = bytes.ToLower(pass)
+			}
+			if op.B%10 != 0 {
+				o.Count("near-miss-passphrases", 1)
+			}
 			if bytes.Equal(w, pass) {
 				w = append(append([]byte(nil), pass...), 'x')
 			}
@@ -210,8 +246,8 @@ func c19Run(t *testing.T, s *sim.Scn) *sim.Outcome {
 		if lerr != nil {
 			o.Count("load-refused", 1)
 			if mustLoad {
-				o.Fail("C19/undamaged-file-does-not-load", fmt.Sprintf("C19/undamaged-file-does-not-load/pass=%d/fmt=%d", passClass%4, format%2), 0,
-					fmt.Sprintf("%s (passphrase class %d, %d bytes; format %d): Load with the right passphrase fails: %v", what, passClass%4, len(p), format%2, lerr), "a key saved under a passphrase loads with that passphrase")
+				o.Fail("C19/undamaged-file-does-not-load", fmt.Sprintf("C19/undamaged-file-does-not-load/pass=%d/fmt=%d", passClass%c19Classes, format%2), 0,
+					fmt.Sprintf("%s (passphrase class %d, %d bytes; format %d): Load with the right passphrase fails: %v", what, passClass%c19Classes, len(p), format%2, lerr), "a key saved under a passphrase loads with that passphrase")
 				return false
 			}
 			return true
@@ -285,7 +321,7 @@ func c19Run(t *testing.T, s *sim.Scn) *sim.Outcome {
 		o.Count("export-import-roundtrips", 1)
 	}
 	o.NonTrivial = len(s.Ops) >= 1
-	o.States = append(o.States, fmt.Sprintf("%d/%d/%v", passClass%4, format%2, o.Counters["load-succeeded"] > 0))
+	o.States = append(o.States, fmt.Sprintf("%d/%d/%v", passClass%c19Classes, format%2, o.Counters["load-succeeded"] > 0))
 	return o
 }
 
@@ -311,7 +347,7 @@ func c19Field(img []byte, pos int) string {
 func c19Enumerate(tier string, run func(*sim.Scn) *sim.Outcome) string {
 	var scns []*sim.Scn
 	total := 0
-	for pass := int64(0); pass < 4; pass++ {
+	for pass := int64(0); pass < c19Classes; pass++ {
 		for format := int64(0); format < 2; format++ {
 			img, err := c19Image(pass, format)
 			if err != nil {
@@ -321,8 +357,14 @@ func c19Enumerate(tier string, run func(*sim.Scn) *sim.Outcome) string {
 			// every variant: the undamaged file loads with its passphrase (and round-trips through export/import),
 			// and with no other passphrase
 			scns = append(scns, &sim.Scn{Cfg: cfg(), Ops: []sim.Op{{K: "export"}}}, &sim.Scn{Cfg: cfg(), Ops: []sim.Op{{K: "export", A: 1}}})
-			for w := int64(0); w < 4; w++ {
+			for w := int64(0); w < c19Classes; w++ {
 				scns = append(scns, &sim.Scn{Cfg: cfg(), Ops: []sim.Op{{K: "wrongpass", A: w}}})
+			}
+			for d := int64(1); d < 10; d++ {
+				scns = append(scns, &sim.Scn{Cfg: cfg(), Ops: []sim.Op{{K: "wrongpass", A: 1, B: d}}})
+			}
+			if pass >= 4 && (tier != "thorough" || pass > 4) {
+				continue // the whitespace/newline passphrases: pristine, round-trip and wrong-passphrase scenarios only (thorough: faults for one of them)
 			}
 			if tier != "thorough" && !((pass == 1 && format == 0) || (pass == 0 && format == 0) || (pass == 1 && format == 1)) {
 				continue // quick: faults are enumerated for the short passphrase in both formats and the empty passphrase
@@ -363,12 +405,12 @@ func c19Enumerate(tier string, run func(*sim.Scn) *sim.Outcome) string {
 	}
 	close(ch)
 	wg.Wait()
-	return fmt.Sprintf("%d fault images: per (passphrase class, format) every truncation length and every byte position x bit flips + one replacement byte (quick: full for the short passphrase/current format, every 7th position for two more variants; thorough: all 8 variants, all positions, all 8 bit flips), 4 wrong passphrases and an export/import round trip each", total)
+	return fmt.Sprintf("%d fault images: per (passphrase class, format) every truncation length and every byte position x bit flips + one replacement byte (quick: full for the short passphrase/current format, every 7th position for two more variants; thorough: 10 variants, all positions, all 8 bit flips); for all 16 variants 8 other passphrases, 9 near misses of the right one (trailing newline / CR-LF / blank / NUL added or stripped, last byte dropped, case changed) and an export/import round trip each", total)
 }
 
 func c19Gen(r *rand.Rand, tier string) *sim.Scn {
 	// random double faults on top of the enumeration
-	s := &sim.Scn{Cfg: map[string]int64{"pass": r.Int64N(4), "fmt": r.Int64N(2)}}
+	s := &sim.Scn{Cfg: map[string]int64{"pass": r.Int64N(c19Classes), "fmt": r.Int64N(2)}}
 	n := 2 + r.IntN(2)
 	for i := 0; i < n; i++ {
 		switch r.IntN(3) {
@@ -387,7 +429,7 @@ func TestC19(t *testing.T) {
 	sim.Main(t, &sim.Check{
 		ID:    "C19",
 		Level: "fault_enumeration",
-		Rule: "fault images of the key file written by the real ImportPrivateKey (seeded key; passphrases: empty, 1 byte, 4 KB, non-UTF-8; current and legacy salt-less format): every truncation length, every byte position x bit flips + a replacement byte (enumerated exhaustively per variant as described in enumerated_space), wrong passphrases, export->import->load; plus seeded double faults. " +
+		Rule: "fault images of the key file written by the real ImportPrivateKey (seeded key; passphrases: empty, 1 byte, 4 KB, non-UTF-8, ending in LF, ending in CR-LF, blank-padded, ending in NUL; current and legacy salt-less format): every truncation length, every byte position x bit flips + a replacement byte (enumerated exhaustively per variant as described in enumerated_space), wrong passphrases, export->import->load; plus seeded double faults. " +
 			"distinct = distinct scenario hash; non-trivial = at least one fault or round trip applied",
 		Assumptions: []string{"every truncation length is a superset of the torn states of the file write (in place or via rename)", "salt and nonce come from crypto/rand, so byte values of the image differ between runs; positions and field layout do not"},
 		Components:  map[string]string{"pkg/signer/file (Load, Import, Export)": "real", "types.KeyAddress": "real", "key directory": "real files in a scratch dir; faults applied to the image"},
